@@ -80,6 +80,7 @@ class Run:
         self.expanded = []
         self.inbox = []
         self.ev_index = -1
+        self.died = None
         run = self
 
         class FakeLink(CRTPDriver):
@@ -169,6 +170,10 @@ class Run:
                     cf.incoming.run()
                 except _Stop:
                     pass
+                except Exception as e:      # the dispatcher thread would have died here
+                    del self.inbox[:]
+                    self.out.append([-3, -1, self.now])
+                    self.died = type(e).__name__
         elif k == 'open':
             if cf.link is None:
                 self.next_nr = bool(ev[1])
@@ -211,7 +216,7 @@ def run_events(events):
             r.ev_index = i
             r.step(ev)
         res = {'out': [list(x) for x in r.out], 'timers': r.timer_obs(), 'tx': list(r.tx), 'expanded': list(r.expanded),
-               'ntimers': len(r.timers)}
+               'ntimers': len(r.timers), 'died': r.died}
     finally:
         r.finish()
     return res
